@@ -304,9 +304,19 @@ class SymReal:
             ii = self.is_int and oi and intres
         return SymReal(f(self.z, oz), ii)
 
-    def __add__(s, o): return s._b(o, lambda a, b: a + b, True)
-    def __radd__(s, o): return s._b(o, lambda a, b: b + a, True)
-    def __sub__(s, o): return s._b(o, lambda a, b: a - b, True)
+    def _off(s, r, o, sign):
+        # degrees(t) + c keeps the tag ('deg_of', t, offset) so that sin(radians(degrees(t) + 360)) can use periodicity
+        if r is not NotImplemented and s.tag is not None and s.tag[0] == 'deg_of' and not isinstance(o, (SymReal, SymBool)):
+            try:
+                off = (s.tag[2] if len(s.tag) > 2 else 0) + sign * exact_fraction(o)
+                r.tag = ('deg_of', s.tag[1], off)
+            except (TypeError, ValueError):
+                pass
+        return r
+
+    def __add__(s, o): return s._off(s._b(o, lambda a, b: a + b, True), o, 1)
+    def __radd__(s, o): return s._off(s._b(o, lambda a, b: b + a, True), o, 1)
+    def __sub__(s, o): return s._off(s._b(o, lambda a, b: a - b, True), o, -1)
     def __rsub__(s, o): return s._b(o, lambda a, b: b - a, True)
     def __mul__(s, o): return s._b(o, lambda a, b: a * b, True)
     def __rmul__(s, o): return s._b(o, lambda a, b: b * a, True)
